@@ -1119,6 +1119,26 @@ def c07_programs(tier, sd):
                     "ops": [["randomize", ["h"]], ["cmode", ["h"], "hf", False]] + [["randomize", ["h"]]] * calls_off +
                            [["list_append", ["h", "l"], 0], ["randomize", ["h"]], ["cmode", ["h"], "hf", True], ["randomize", ["h"]], ["randomize", ["h"]],
                             ["cmode", ["h"], "hf", False], ["list_append", ["h", "l"], 0], ["cmode", ["h"], "hf", True], ["randomize", ["h"]]]})
+    # toggles made inside a raw_mode region; integer mode values (0 / 1); several live instances
+    for cls in ("Mid", "Leaf"):
+        for bn in ("ca", "cb"):
+            out.append({"tag": "cmode_raw", "desc": "%s: toggle %s inside raw_mode / with integer values, three instances" % (cls, bn), "prog": pr,
+                        "world": [["older", "obj", cls], ["top", "obj", cls], ["newer", "obj", cls]],
+                        "ops": [["cmode_raw", ["older"], bn, False], ["randomize", ["older"]], ["randomize", ["top"]], ["randomize", ["newer"]],
+                                ["cmode", ["top"], bn, 0], ["randomize", ["top"]], ["randomize", ["newer"]], ["new", ["late", "obj", cls]], ["randomize", ["late"]],
+                                ["cmode_raw", ["older"], bn, True], ["cmode", ["top"], bn, 1], ["randomize", ["older"]], ["randomize", ["top"]],
+                                ["cmode_raw", ["newer"], bn, 0], ["randomize", ["newer"]], ["randomize", ["late"]], ["randomize", ["top"]]]})
+    # a block that carries solve_order directives and bound-forming statements is switched off: neither may stay in force
+    Ord = {"name": "Ord", "fields": [fld("a", ("u", 4)), fld("b", ("u", 4)), fld("c", ("u", 4))],
+           "blocks": [["rel", "c", [["if", [[["==", a, lit(1)], [E(["==", b, lit(1)])]]], None], E(["!=", F("c"), b])]],
+                      ["small", "c", [E(["<", a, lit(4)]), E(["in", b, [["rng", lit(0), lit(5)]]]), ["order", [["a"]], [["b"]]]]],
+                      ["ord2", "c", [["order", [["b"]], [["c"]]]]]]}
+    pro = {"enums": {}, "classes": [Ord]}
+    for mode_off in (False, 0):
+        out.append({"tag": "cmode_order", "desc": "block with solve_order and bounds switched off with %r" % (mode_off,), "prog": pro, "world": [["top", "obj", "Ord"], ["o2", "obj", "Ord"]],
+                    "ops": [["randomize", ["top"]], ["cmode", ["top"], "small", mode_off], ["randomize", ["top"]], ["randomize", ["top"]], ["randomize", ["o2"]],
+                            ["cmode", ["top"], "ord2", mode_off], ["randomize", ["top"]], ["cmode", ["top"], "small", True if mode_off is False else 1], ["randomize", ["top"]],
+                            ["cmode", ["o2"], "rel", mode_off], ["randomize", ["o2"]], ["randomize", ["top"]]]})
     # single instances of each class: every single toggle, then toggle sequences
     for cls in ("Base", "Mid", "Leaf"):
         for bn in blocks[cls]:
